@@ -38,25 +38,30 @@ RD = ["read", "drop"]
 
 def uniq(scs):
     seen, out = set(), []
-    for name, threads, spawned in scs:
+    for name, threads, spawned, joins in scs:
         key = (tuple(sorted(tuple(t) for i, t in enumerate(threads) if i not in spawned)),
-               tuple(sorted((tuple(threads[c]), tuple(threads[p]), at) for c, (p, at) in spawned.items())))
+               tuple(sorted((tuple(threads[c]), tuple(threads[p]), at) for c, (p, at) in spawned.items())),
+               tuple(sorted((c, p, at) for c, (p, at) in joins.items())))
         if key in seen:
             continue
         seen.add(key)
-        out.append((name, threads, spawned))
+        out.append((name, threads, spawned, joins))
     return out
 
 
 def family(prop, tier):
     S = []
-    add = lambda name, threads, spawned=None: S.append((name, [list(t) for t in threads], spawned or {}))
+    add = lambda name, threads, spawned=None, joins=None: S.append((name, [list(t) for t in threads], spawned or {}, joins or {}))
     if prop == "C02":
         progs = [["drop"], RD, ["clone", "read", "drop", "drop"], ["clone", "drop", "read", "drop"], ["read", "clone", "drop", "drop"]]
         for a, b in itertools.combinations_with_replacement(range(len(progs)), 2):
             add(f"2t:{a}{b}", [progs[a], progs[b]])
         add("spawn", [["clone", "give", "read", "drop"], RD], {1: (0, 0)})
         add("spawn2", [["clone", "give", "clone", "give", "read", "drop"], RD, ["drop"]], {1: (0, 0), 2: (0, 2)})
+        # scoped threads that use the parent's handle by reference and are joined before it is released
+        add("scoped clone", [["clone", "drop", "drop"], ["bclone", "drop"]], {1: (0, -1)}, {1: (0, 1)})
+        add("scoped clone+read", [["read", "clone", "read", "drop", "drop"], ["bread", "bclone", "read", "drop"]], {1: (0, -1)}, {1: (0, 3)})
+        add("2 scoped cloners", [["read", "drop"], ["bclone", "drop"], ["bclone", "read", "drop"]], {1: (0, -1), 2: (0, -1)}, {1: (0, 1), 2: (0, 1)})
         for a, b, c in [(1, 1, 1), (0, 1, 2), (1, 1, 2), (0, 0, 1), (1, 2, 3)]:
             add(f"3t:{a}{b}{c}", [progs[a], progs[b], progs[c]])
         if tier == "thorough":
@@ -122,12 +127,12 @@ def _init(mirpath):
 
 
 def _one(args):
-    idx, name, threads, spawned, timeout_ms = args
+    idx, name, threads, spawned, joins, timeout_ms = args
     sys.path.insert(0, WMM)
     import rc11
     t0 = time.time()
     try:
-        sc = rc11.Scenario(_T["templates"], threads, spawned, name)
+        sc = rc11.Scenario(_T["templates"], threads, spawned, name, joins)
         for th, branches in sc.final:
             for g, h in branches:
                 if h != 0:
@@ -150,7 +155,7 @@ def cvc5_agrees(smt2, workdir, tag):
     with open(p, "w") as f:
         f.write("(set-logic ALL)\n" + smt2)
     try:
-        r = subprocess.run(["cvc5", "--lang", "smt2", "--tlimit=120000", p], capture_output=True, text=True, timeout=150)
+        r = subprocess.run(["cvc5", "--lang", "smt2", "--tlimit=60000", p], capture_output=True, text=True, timeout=90)
     except Exception as e:
         return None, str(e)
     out = (r.stdout + r.stderr).strip()
@@ -205,17 +210,18 @@ def run(prop, tier, spec):
                                     "weak-memory model; see the funnel harnesses): " + "; ".join(foreign)})
     scs = family(prop, tier)
     tmo = 120000 if tier == "quick" else 600000
-    jobs = [(i, n, t, s, tmo) for i, (n, t, s) in enumerate(scs)]
+    jobs = [(i, n, t, s, j, tmo) for i, (n, t, s, j) in enumerate(scs)]
     nproc = min(int(os.environ.get("VERIF_JOBS", "12")), max(1, len(jobs)))
     with Pool(nproc, initializer=_init, initargs=(mirpath,)) as pool:
         outs = pool.map(_one, jobs, chunksize=1)
     os.makedirs(os.path.join(REPLAYS, prop), exist_ok=True)
-    samples, solver_s, holds = [], 0.0, 0
+    samples, solver_s, holds, n_cvc5 = [], 0.0, 0, 0
     for o in outs:
-        name, threads, spawned = scs[o["idx"]]
+        name, threads, spawned, joins = scs[o["idx"]]
         res["queries"] += o.get("queries", 1) or 1
         solver_s += o.get("secs", 0) or 0
-        desc = {"scenario": name, "threads": threads, "spawned": {str(k): v for k, v in spawned.items()}, "events": o.get("events"),
+        desc = {"scenario": name, "threads": threads, "spawned": {str(k): v for k, v in spawned.items()},
+                "joins": {str(k): v for k, v in joins.items()}, "events": o.get("events"),
                 "verdict": o["verdict"], "solver_s": o.get("secs")}
         if o["verdict"] == "holds":
             holds += 1
@@ -225,7 +231,13 @@ def run(prop, tier, spec):
                 samples.append(desc)
         elif o["verdict"] == "violation":
             ok, why = o["witness_check"]
-            agree, cv = cvc5_agrees(o["smt2"], WORK, f"{prop}-wmm-{o['idx']}")
+            # second solver on the first counterexamples only (each re-decision can take a minute); every
+            # counterexample is validated by the solver-free witness checker
+            if n_cvc5 < 2:
+                n_cvc5 += 1
+                agree, cv = cvc5_agrees(o["smt2"], WORK, f"{prop}-wmm-{o['idx']}")
+            else:
+                agree, cv = None, "not re-decided (limit of 2 cvc5 cross-checks per run)"
             key = f"{prop}:wmm:" + "|".join(",".join(t) for t in threads)
             path = os.path.join(REPLAYS, prop, "wmm-%s.json" % hashlib.sha1(key.encode()).hexdigest()[:10])
             art = {"engine": "wmm", "property": prop, "key": key, "scenario": desc, "witness": o["witness"],
@@ -251,7 +263,7 @@ def run(prop, tier, spec):
         "scenarios": len(scs), "scenarios_hold": holds,
         "max_events": max([o.get("events") or 0 for o in outs] or [0]),
         "solver_seconds": round(solver_s, 1),
-        "bounds": f"{'2-3' if tier == 'quick' else '2-4'} threads, <= {max(len(t) for _, ts, _ in scs for t in ts)} ops per thread, one shared allocation, "
+        "bounds": f"{'2-3' if tier == 'quick' else '2-4'} threads, <= {max(len(t) for _, ts, _, _ in scs for t in ts)} ops per thread, one shared allocation, "
                   "RC11 (SeqCst treated as AcqRel), release-like MIR (debug assertions off)",
         "samples": samples,
     }
@@ -356,7 +368,8 @@ def replay(prop, art):
     mirpath, _ = dump_mir()
     _init(mirpath)
     sc = art["scenario"]
-    o = _one((0, sc["scenario"], sc["threads"], {int(k): tuple(v) for k, v in sc["spawned"].items()}, 600000))
+    o = _one((0, sc["scenario"], sc["threads"], {int(k): tuple(v) for k, v in sc["spawned"].items()},
+              {int(k): tuple(v) for k, v in sc.get("joins", {}).items()}, 600000))
     os.remove(mirpath)
     log(f"[{prop}] replay of weak-memory scenario {sc['threads']}: {o['verdict']}")
     if o["verdict"] == "violation":
